@@ -29,6 +29,8 @@ def main(argv=None) -> int:
         print(f"HARNESS-ERROR: no check registered for {args.prop}", file=sys.stderr)
         return 2
     engine, tiers = PLANS[args.prop]
+    if engine == "mpi":
+        os.environ["SIMKIT_FAKE_MPI"] = "1"
     plan = dict(tiers[args.tier])
     if args.runs is not None:
         plan["runs"] = args.runs
